@@ -1,7 +1,8 @@
 (** Case language of the C20 correspondence check.  The Go harness
     (harness/cmd/c20) writes [coq/gen/Cases_C20_*.v] with values of [case]
     holding the inputs it gave to [diff.Diff] / [diff.Analyze] AND what the
-    implementation returned; [check] re-runs the model.
+    implementation returned; [check] re-runs the model.  A [CSession] case is
+    a whole sequence of calls on one pool of image objects (Model/DiffObjs.v).
 
     Only the transport encoding uses primitive 63-bit integers (images of
     4 KiB as lists of [Z] literals take coqc a second each to parse): a byte
@@ -10,7 +11,7 @@
     Hamming distances) travels as [hi * 2^24 + lo].  The decoders below turn
     them into the [Z]/[list Z] values the model works on. *)
 From Coq Require Import Uint63.
-From CSS Require Import Lib.Base Lib.Cases Model.Diff.
+From CSS Require Import Lib.Base Lib.Cases Model.Diff Model.DiffObjs.
 
 (** ** decoders *)
 
@@ -72,6 +73,51 @@ Definition obs_map {A B} (f : A -> B) (o : obs A) : obs B :=
   | OPanic => OPanic
   end.
 
+(** ** sessions on image objects *)
+
+(** an object of the pool as the harness built it: [built = 0]
+    biosimage.New(content) with the observed parse contract [pf] of the content
+    ([Some (len Buf)] or [None] = error), [built = 1] biosimage.NewFromParsed
+    ([content] is the object's Content, i.e. the parsed buffer) *)
+Inductive oimg : Type := OImg (content : list int) (pf : option Z) (built : nat).
+
+Definition dec_img (o : oimg) : image :=
+  match o with
+  | OImg c pf O => new_image (dec_bytes c) pf
+  | OImg c _ _ => new_from_parsed (dec_bytes c)
+  end.
+
+(** one call of a session and what the implementation returned *)
+Inductive sstep : Type :=
+| SParse (i : nat) (ok : bool)
+| SSize (i : nat) (n : Z)
+| SDiff (ranges : rlist) (mp : mapper) (g b : nat) (ign : list Z) (r : obs rlist)
+| SAnalyze (ranges : rlist) (mp : mapper) (ms : list rlist) (g b : nat) (r : obs oreport).
+
+Definition op_of (s : sstep) : op :=
+  match s with
+  | SParse i _ => OpParse i
+  | SSize i _ => OpSize i
+  | SDiff ranges mp g b ign _ => OpDiff (dec_rlist ranges) mp g b ign
+  | SAnalyze ranges mp ms g b _ => OpAnalyze (dec_rlist ranges) mp (map dec_rlist ms) g b
+  end.
+
+Definition step_match (s : sstep) (r : res) : bool :=
+  match s, r with
+  | SParse _ ok, RParse ok' => Bool.eqb ok ok'
+  | SSize _ n, RSize n' => n =? n'
+  | SDiff _ _ _ _ _ o, RDiff m => obs_match (list_eqb range_eqb) (obs_map dec_rlist o) m
+  | SAnalyze _ _ _ _ _ o, RAnalyze m => obs_match report_eqb (obs_map dec_report o) m
+  | _, _ => false
+  end.
+
+Fixpoint all_match (ss : list sstep) (rs : list res) : bool :=
+  match ss, rs with
+  | [], [] => true
+  | s :: ss', r :: rs' => step_match s r && all_match ss' rs'
+  | _, _ => false
+  end.
+
 (** ** cases *)
 
 Inductive case : Type :=
@@ -82,13 +128,17 @@ Inductive case : Type :=
 | CAnalyze (ranges : rlist) (mp : mapper) (ms : list rlist) (good bad : list int)
            (parse_ok : bool) (r : obs oreport)
 (* Range.Intersect on raw uint64 values *)
-| CIntersect (a b : Z * Z) (r : bool).
+| CIntersect (a b : Z * Z) (r : bool)
+(* a session: calls chained on ONE pool of image objects, with what each call
+   returned (Model/DiffObjs.v) *)
+| CSession (imgs : list oimg) (steps : list sstep).
 
 (* number literals in these positions are primitive integers *)
 Arguments RP l%uint63.
 Arguments OE (r h)%uint63 rel%Z.
 Arguments CDiff ranges mp (good bad)%uint63 ign%Z r.
 Arguments CAnalyze ranges mp ms (good bad)%uint63 parse_ok r.
+Arguments OImg content%uint63 pf%Z built%nat.
 
 Definition check (c : case) : bool :=
   match c with
@@ -100,6 +150,8 @@ Definition check (c : case) : bool :=
                 (analyze (dec_rlist ranges) mp (map dec_rlist ms) (dec_bytes good) (dec_bytes bad) parse_ok)
   | CIntersect a b r =>
       Bool.eqb r (intersect (mkR (fst a) (snd a)) (mkR (fst b) (snd b)))
+  | CSession imgs steps =>
+      all_match steps (run (map dec_img imgs) (map op_of steps))
   end.
 
 Definition mismatches := mismatches_by check.
